@@ -7,6 +7,7 @@ package main
 
 import (
 	"context"
+	"flag"
 	"fmt"
 	"io"
 	"math"
@@ -86,22 +87,26 @@ func (m *streamWorld) vals(id int) streamVals {
 // ---- world ---------------------------------------------------------------------------------------------
 
 type streamWorld struct {
-	base  time.Time
-	srv   *server
-	res   *vlib.Result
-	pids  map[int]uint64 // spec part id -> real part id
-	group string
-	root  string
-	cfg   config
-	seed  int64
-	msgID uint64
-	debug bool
+	base     time.Time
+	srv      *server
+	res      *vlib.Result
+	pids     map[int]uint64 // spec part id -> real part id
+	group    string
+	root     string
+	cfg      config
+	seed     int64
+	msgID    uint64
+	debug    bool
+	eids     map[int]string // row id -> element id seen in results
+	curB     int            // behaviour id and step under replay (crash guard)
+	curStep  int
+	eidOwner map[string]int
 }
 
 func newStreamWorld(srv *server, cfg config, group string, res *vlib.Result) *streamWorld {
 	now := time.Now().UTC()
 	base := time.Date(now.Year(), now.Month(), now.Day(), 1, 0, 0, 0, time.UTC)
-	return &streamWorld{srv: srv, cfg: cfg, group: group, res: res, seed: vlib.Seed(), base: base, pids: map[int]uint64{},
+	return &streamWorld{srv: srv, cfg: cfg, group: group, res: res, seed: vlib.Seed(), base: base, pids: map[int]uint64{}, eids: map[int]string{}, eidOwner: map[string]int{},
 		debug: os.Getenv("VERIF_STREAM_DEBUG") != ""}
 }
 
@@ -175,8 +180,8 @@ func (m *streamWorld) setup(ctx context.Context) error {
 		bc := databasev1.NewIndexRuleBindingRegistryServiceClient(m.srv.conn)
 		if _, err = bc.Create(ctx, &databasev1.IndexRuleBindingRegistryServiceCreateRequest{IndexRuleBinding: &databasev1.IndexRuleBinding{
 			Metadata: &commonv1.Metadata{Name: "bind", Group: m.group}, Rules: []string{"idx-a", "idx-b"},
-			Subject:  &databasev1.Subject{Catalog: commonv1.Catalog_CATALOG_STREAM, Name: streamName},
-			BeginAt:  timestamppb.New(m.base.Add(-24 * time.Hour)), ExpireAt: timestamppb.New(m.base.Add(24 * 365 * time.Hour)),
+			Subject: &databasev1.Subject{Catalog: commonv1.Catalog_CATALOG_STREAM, Name: streamName},
+			BeginAt: timestamppb.New(m.base.Add(-24 * time.Hour)), ExpireAt: timestamppb.New(m.base.Add(24 * 365 * time.Hour)),
 		}}); err != nil {
 			return fmt.Errorf("create binding: %w", err)
 		}
@@ -319,6 +324,21 @@ func (m *streamWorld) write(ctx context.Context, rows []map[string]any) error {
 	return nil
 }
 
+// guard writes the result file AHEAD of an operation as if the process died in it.  An unrecovered panic in an engine
+// goroutine takes the in-process server - and with it this harness - down before the result could be written, which
+// would turn a server crash into "no result"; with the guard the crash is reported as a violation of the step that
+// caused it (and reproduced like any other).  A normal exit overwrites the file.
+func (m *streamWorld) guard(sig, format string, a ...any) {
+	f := flag.Lookup("out")
+	if f == nil || f.Value.String() == "" {
+		return
+	}
+	cp := *m.res
+	cp.Violations = append(append([]vlib.Violation{}, m.res.Violations...),
+		vlib.Violation{Behaviour: m.curB, Step: m.curStep, Signature: sig, Detail: fmt.Sprintf(format, a...)})
+	cp.Write(f.Value.String())
+}
+
 func (m *streamWorld) replay(ctx context.Context, b vlib.Behaviour) {
 	for i, st := range b.States {
 		if i == 0 {
@@ -326,6 +346,8 @@ func (m *streamWorld) replay(ctx context.Context, b vlib.Behaviour) {
 		}
 		ev := vlib.Map(st, "last")
 		op := vlib.Str(ev, "op")
+		m.curB, m.curStep = b.ID, i
+		m.guard("process-died-during-"+op, "the server process died while step %d (%s) or its covering query was executed", i, op)
 		m.res.Steps++
 		m.res.Inc("op_" + op)
 		fail := func(sig, format string, a ...any) { m.res.Violate(b.ID, i, sig, format, a...) }
@@ -381,10 +403,22 @@ func (m *streamWorld) replay(ctx context.Context, b vlib.Behaviour) {
 			}
 			continue
 		case "queryall":
-			for _, r := range vlib.List(ev, "res") {
-				if !m.checkQuery(ctx, st, vlib.Rec(r), fail) {
-					return
+			// every query of the family is evaluated (one violation per distinct signature), then the behaviour stops
+			ok := true
+			sigs := map[string]bool{}
+			once := func(sig, format string, a ...any) {
+				if !sigs[sig] {
+					sigs[sig] = true
+					fail(sig, format, a...)
 				}
+			}
+			for _, r := range vlib.List(ev, "res") {
+				if !m.checkQuery(ctx, st, vlib.Rec(r), once) {
+					ok = false
+				}
+			}
+			if !ok {
+				return
 			}
 			continue
 		}
@@ -494,31 +528,43 @@ func (m *streamWorld) checkRow(e *streamv1.Element, row map[string]any) (string,
 	if t := streamFindTag(e, "b"); t.GetStr() == nil || t.GetStr().GetValue() != b {
 		return "string-tag", fmt.Sprintf("b=%v, written %q", t, b)
 	}
-	if t := streamFindTag(e, "arr"); t == nil || (t.GetIntArray() == nil && !isNullTag(t)) || fmt.Sprint(t.GetIntArray().GetValue()) != fmt.Sprint(arr) && !(len(arr) == 0 && len(t.GetIntArray().GetValue()) == 0) {
+	if t := streamFindTag(e, "arr"); t == nil {
+		return "tag-absent", "arr is not in the projection result"
+	} else if len(arr) == 0 {
+		if !isNullTag(t) && !(t.GetIntArray() != nil && len(t.GetIntArray().GetValue()) == 0) {
+			return "int-array-tag", fmt.Sprintf("arr=%v, written an empty array", t)
+		}
+	} else if t.GetIntArray() == nil || fmt.Sprint(t.GetIntArray().GetValue()) != fmt.Sprint(arr) {
 		return "int-array-tag", fmt.Sprintf("arr=%v, written %v", t, arr)
 	}
+	// What the stream API can and cannot distinguish (found empirically, stable over memory parts, file parts and merges):
+	//   string        "" comes back as the empty string, an explicit null as null: both must match exactly
+	//   binary        nil and empty are the same protobuf value (empty bytes come back); an explicit null comes back as null
+	//   string/int array   an empty (or nil) array has no stored representation of its own: it comes back as null, and so
+	//                 does an explicit null; these three are ONE equivalence class here.  Arrays with elements - including
+	//                 [""] and ["", ""] - must match element by element.
 	t := streamFindTag(e, "ps")
 	switch {
 	case t == nil:
 		return "tag-absent", "ps is not in the projection result"
-	case v.null&1 != 0 || v.ps == "":
-		// the API cannot distinguish an explicit null from an empty string: both come back as null
-		if !isNullTag(t) && !(t.GetStr() != nil && t.GetStr().GetValue() == "") {
-			return "null-tag", fmt.Sprintf("ps=%v, written null/empty", t)
+	case v.null&1 != 0:
+		if !isNullTag(t) {
+			return "null-tag", fmt.Sprintf("ps=%v, written null", t)
 		}
 	case t.GetStr() == nil || t.GetStr().GetValue() != v.ps:
-		return "string-tag-payload", fmt.Sprintf("ps=%.60q (len %d), written %.60q (len %d)", t.GetStr().GetValue(), len(t.GetStr().GetValue()), v.ps, len(v.ps))
+		return "string-tag-payload", fmt.Sprintf("ps=%.60q (len %d, null=%v), written %.60q (len %d)", t.GetStr().GetValue(), len(t.GetStr().GetValue()), isNullTag(t), v.ps, len(v.ps))
 	}
 	t = streamFindTag(e, "pb")
+	_, isBin := t.GetValue().(*modelv1.TagValue_BinaryData)
 	switch {
 	case t == nil:
 		return "tag-absent", "pb is not in the projection result"
-	case v.null&2 != 0 || len(v.pb) == 0:
-		if !isNullTag(t) && !(t.GetValue() != nil && len(t.GetBinaryData()) == 0 && t.GetStr() == nil && t.GetInt() == nil) {
-			return "null-tag", fmt.Sprintf("pb=%v, written null/empty", t)
+	case v.null&2 != 0:
+		if !isNullTag(t) {
+			return "null-tag", fmt.Sprintf("pb=%v, written null", t)
 		}
-	case string(t.GetBinaryData()) != string(v.pb):
-		return "binary-tag", fmt.Sprintf("pb=%x, written %x", t.GetBinaryData(), v.pb)
+	case !isBin || string(t.GetBinaryData()) != string(v.pb):
+		return "binary-tag", fmt.Sprintf("pb=%x (null=%v), written %x", t.GetBinaryData(), isNullTag(t), v.pb)
 	}
 	t = streamFindTag(e, "pa")
 	switch {
@@ -529,7 +575,7 @@ func (m *streamWorld) checkRow(e *streamv1.Element, row map[string]any) (string,
 			return "null-tag", fmt.Sprintf("pa=%v, written null/empty", t)
 		}
 	case t.GetStrArray() == nil || len(t.GetStrArray().GetValue()) != len(v.pa) || strings.Join(t.GetStrArray().GetValue(), "\x1f") != strings.Join(v.pa, "\x1f"):
-		return "string-array-tag", fmt.Sprintf("pa=%q, written %q", t.GetStrArray().GetValue(), v.pa)
+		return "string-array-tag", fmt.Sprintf("pa=%.80q (null=%v), written %.80q", t.GetStrArray().GetValue(), isNullTag(t), v.pa)
 	}
 	t = streamFindTag(e, "pia")
 	switch {
@@ -540,8 +586,20 @@ func (m *streamWorld) checkRow(e *streamv1.Element, row map[string]any) (string,
 			return "null-tag", fmt.Sprintf("pia=%v, written null/empty", t)
 		}
 	case t.GetIntArray() == nil || fmt.Sprint(t.GetIntArray().GetValue()) != fmt.Sprint(v.pia):
-		return "int-array-tag-payload", fmt.Sprintf("pia=%v, written %v", t.GetIntArray().GetValue(), v.pia)
+		return "int-array-tag-payload", fmt.Sprintf("pia=%v (null=%v), written %v", t.GetIntArray().GetValue(), isNullTag(t), v.pia)
 	}
+	// the element id that comes back is the engine's own id of the element (not the client string): it must identify the
+	// element and stay the same whatever part holds it
+	if e.ElementId == "" {
+		return "element-id", "empty element id"
+	}
+	if prev, ok := m.eids[id]; ok && prev != e.ElementId {
+		return "element-id", fmt.Sprintf("element id %q, was %q in an earlier result", e.ElementId, prev)
+	}
+	if other, ok := m.eidOwner[e.ElementId]; ok && other != id {
+		return "element-id", fmt.Sprintf("element id %q is also the id of element %d", e.ElementId, other)
+	}
+	m.eids[id], m.eidOwner[e.ElementId] = e.ElementId, id
 	return "", ""
 }
 
@@ -609,7 +667,8 @@ func (m *streamWorld) checkCover(ctx context.Context, st vlib.State, op string, 
 				}
 			}
 			id := int(streamFindTag(e, "rid").GetInt().GetValue())
-			fmt.Printf("DEBUG    written: %+.200v\n", m.vals(id))
+			w := m.vals(id)
+			fmt.Printf("DEBUG    written: ps=%.80q pb=%.80x(nil=%v) pa=%.80q(nil=%v) pia=%v(nil=%v) null=%04b\n", w.ps, w.pb, w.pb == nil, w.pa, w.pa == nil, w.pia, w.pia == nil, w.null)
 		}
 	}
 	m.noteDefaultOrder(resp.Elements)
@@ -762,9 +821,10 @@ func (m *streamWorld) checkQuery(ctx context.Context, st vlib.State, ev map[stri
 		}
 	}
 	c1 := vlib.Map(vlib.Map(q, "crit"), "c1")
+	desc := vlib.Canon(q)
+	m.guard("server-crashed-by-query:"+critOps(vlib.Map(q, "crit"))+":"+m.cfg.Index, "the server process died while executing query %s; layout %s", desc, m.layout(st))
 	resp, err := m.query(ctx, req)
 	m.res.Inc("criteria_queries")
-	desc := vlib.Canon(q)
 	if err != nil {
 		fail("query-rejected:"+vlib.Str(c1, "op")+":"+vlib.Str(c1, "tag")+":"+m.cfg.Index, "query %s failed: %v", desc, err)
 		return false
@@ -779,10 +839,62 @@ func (m *streamWorld) checkQuery(ctx context.Context, st vlib.State, ev map[stri
 	}
 	m.noteDefaultOrder(resp.Elements)
 	if sig, msg := m.matchGroups(resp.Elements, vlib.List(ev, "groups"), vlib.List(ev, "ambiguous"), ackedMap(st)); sig != "" {
-		fail(sig+"-in-query:"+vlib.Str(c1, "op")+":"+vlib.Str(c1, "tag")+":"+m.cfg.Index, "%s; query %s", msg, desc)
+		fail(sig+"-in-query:"+vlib.Str(c1, "op")+":"+vlib.Str(c1, "tag")+":"+m.cfg.Index, "%s; returned ids %v, spec ids %v; layout %s; query %s", msg,
+			m.idsOf(resp.Elements), groupIDs(vlib.List(ev, "groups")), m.layout(st), desc)
 		return false
 	}
 	return true
+}
+
+// critOps names the operators and tags of a criteria ("ne:a" or "eq:b+ge:a").
+func critOps(c map[string]any) string {
+	one := func(l map[string]any) string { return vlib.Str(l, "op") + ":" + vlib.Str(l, "tag") }
+	if vlib.Str(c, "conn") == "one" {
+		return one(vlib.Map(c, "c1"))
+	}
+	return one(vlib.Map(c, "c1")) + "-" + vlib.Str(c, "conn") + "-" + one(vlib.Map(c, "c2"))
+}
+
+func (m *streamWorld) idsOf(es []*streamv1.Element) []int {
+	var out []int
+	for _, e := range es {
+		out = append(out, int(streamFindTag(e, "rid").GetInt().GetValue()))
+	}
+	return out
+}
+
+func groupIDs(groups []any) []int {
+	var out []int
+	for _, g := range groups {
+		for _, r := range g.([]any) {
+			out = append(out, vlib.Int(vlib.Rec(r), "id"))
+		}
+	}
+	sort.Ints(out)
+	return out
+}
+
+// layout describes the spec's part structure with the queried tags of every element (for violation reports).
+func (m *streamWorld) layout(st vlib.State) string {
+	acked := ackedMap(st)
+	var parts []string
+	for _, pv := range vlib.List(st, "parts") {
+		p := vlib.Rec(pv)
+		kind := "file"
+		if vlib.Bool(p, "mem") {
+			kind = "mem"
+		}
+		ids := vlib.Ints(vlib.List(p, "rows"))
+		sort.Ints(ids)
+		var rows []string
+		for _, id := range ids {
+			a, b, arr := m.rowTags(id)
+			rows = append(rows, fmt.Sprintf("%d(s%d t%d a=%d b=%s arr=%v)", id, vlib.Int(acked[id], "s"), vlib.Int(acked[id], "t"), a, b, arr))
+		}
+		parts = append(parts, fmt.Sprintf("%s#%d{%s}", kind, vlib.Int(p, "pid"), strings.Join(rows, " ")))
+	}
+	sort.Strings(parts)
+	return strings.Join(parts, " ")
 }
 
 // checkWindow verifies an ordered query with offset/limit: the elements are elements of the full result, none twice,
